@@ -6,7 +6,13 @@
    more than 1 MiB is requested (the convention of the harness seam, so huge sizes never reach libc).
    Memory is modelled region-wise: every successful underlying call yields a fresh region named by its call index; the
    accesses the code performs on a region (guard write, record initialisation, memset/memcpy of the C wrappers) are
-   bounds-checked and an out-of-bounds or NULL access sets [s_err].  No proofs in this file. *)
+   bounds-checked and an out-of-bounds or NULL access sets [s_err].
+   A scenario may run with memory accounting on ([sc_wrap]: GlobalMemoryAccountant::start() has put an
+   AccountingTestMemoryAllocator around each of the three allocators).  The wrapper hands the request to the allocator it
+   wraps unchanged and returns that allocator's pointer unchanged (C05_Wrapper.v: model of the wrapper and the proof of this
+   transparency), so blocks, layout, contents and totals are those of the same scenario without wrappers; only the
+   sequence of underlying calls differs (the wrapper's own nodes), and [spec] then reads from a call log only whether a call
+   failed.  No proofs in this file. *)
 From Coq Require Import NArith Bool List.
 From CppUVerif Require Import gen.Gen_Common gen.Gen_C05 lib.Str.
 Import ListNotations.
@@ -72,7 +78,11 @@ Definition remove_id (i : N) (t : list N) : list N := filter (fun j => negb (j =
 Definition find_block (i : N) (bs : list block) : option block := find (fun b => b_id b =? i) bs.
 Definition remove_block (i : N) (bs : list block) : list block := filter (fun b => negb (b_id b =? i)) bs.
 
-Record oobs := { o_kind : N; o_calls : list call; o_amod : N; o_off : N; o_req : N; o_nk : N; o_nv : N;
+(* [o_amod]: address of the returned block modulo 16; [o_ovl]: 1 when the harness saw the user bytes + guard or the record of
+   the new block intersect those of another live block (or each other); [o_off], [o_req]: offset of the block in the region of
+   the underlying allocator it lies in and the size of that region; [o_nk] 1: record inside that region at offset [o_nv],
+   2: record in another region with [o_nv] bytes from the record to the end of that region *)
+Record oobs := { o_kind : N; o_calls : list call; o_amod : N; o_ovl : N; o_off : N; o_req : N; o_nk : N; o_nv : N;
                  o_dig : list N; o_total : N; o_rep : N }.
 Definition K_SKIP := 0. Definition K_NULL := 1. Definition K_BAD := 2. Definition K_PTR := 3. Definition K_VOID := 4. Definition K_ERR := 5.
 
@@ -216,7 +226,7 @@ Inductive op :=
 | OWrite (id off : N) (bytes : list N).
 
 Definition mk_oobs kind calls req nk nv dig total rep :=
-  {| o_kind := kind; o_calls := calls; o_amod := 0; o_off := 0; o_req := req; o_nk := nk; o_nv := nv; o_dig := dig; o_total := total; o_rep := rep |}.
+  {| o_kind := kind; o_calls := calls; o_amod := 0; o_ovl := 0; o_off := 0; o_req := req; o_nk := nk; o_nv := nv; o_dig := dig; o_total := total; o_rep := rep |}.
 Definition total (s : st) : N := N.of_nat (length (s_table s)).
 
 Definition obs_of_alloc (c : cfg) (throwing : bool) (r : ares * st * list call) (fail_dig : list N) : st * oobs :=
@@ -285,15 +295,16 @@ Fixpoint release_all (s : st) (bs : list block) (rep : N) : st * N :=
   | b :: r => let '(s', _, k) := release s b in release_all s' r (rep + k)
   end.
 
-Record scenario := { sc_cfg : cfg; sc_fail : list N; sc_ops : list op }.
+(* [sc_wrap]: memory accounting on (the accounting wrapper allocators installed) *)
+Record scenario := { sc_cfg : cfg; sc_wrap : bool; sc_fail : list N; sc_ops : list op }.
 (* [ob_end_live]: id and content digest of every block still live after the last operation (newest first), read before the
    harness releases them *)
-Record obs := { ob_guard : bool; ob_ns : N; ob_ops : list oobs; ob_end_live : list (N * list N); ob_end_total : N; ob_end_rep : N }.
+Record obs := { ob_guard : bool; ob_ns : N; ob_wrap : bool; ob_ops : list oobs; ob_end_live : list (N * list N); ob_end_total : N; ob_end_rep : N }.
 
 Definition run_v (v : variant) (sc : scenario) : obs :=
   let '(s, os) := steps v (sc_cfg sc) (sc_fail sc) st0 0 (sc_ops sc) in
   let '(s', rep) := release_all s (s_blocks s) 0 in
-  {| ob_guard := guard_on (sc_cfg sc); ob_ns := node_size (sc_cfg sc); ob_ops := os;
+  {| ob_guard := guard_on (sc_cfg sc); ob_ns := node_size (sc_cfg sc); ob_wrap := sc_wrap sc; ob_ops := os;
      ob_end_live := map (fun b => (b_id b, digest (b_data b))) (s_blocks s); ob_end_total := total s'; ob_end_rep := rep |}.
 Definition run := run_v fixed.
 
@@ -308,7 +319,12 @@ Definition valid_op (o : op) : bool :=
   | OFree _ => true
   | OWrite _ off bytes => is_bytes bytes && (off <? W)
   end.
-Definition valid (sc : scenario) : bool := valid_cfg (sc_cfg sc) && forallb valid_op (sc_ops sc).
+(* fault points are call indices of the underlying allocator; with the wrappers installed the indices would also count the
+   wrappers' own requests, whose failure the wrapper does not survive (it dereferences the NULL node): wrapper scenarios carry
+   no fault points (requests above 1 MiB are still refused) *)
+Definition no_faults (f : list N) : bool := match f with [] => true | _ => false end.
+Definition valid (sc : scenario) : bool :=
+  valid_cfg (sc_cfg sc) && forallb valid_op (sc_ops sc) && (negb (sc_wrap sc) || no_faults (sc_fail sc)).
 
 (* =====================================================================================================================
    spec: what the property demands of an observation.  Model-free: it follows only the abstract meaning of the operations
@@ -333,7 +349,7 @@ Definition too_big (c : cfg) (n : N) : bool := W <=? n + G c + c05_ptr_size + no
 Definition layout_ok (c : cfg) (n : N) (o : oobs) : bool :=
   match o_nk o with
   | 1 => (o_off o + n + G c <=? o_nv o) && (o_nv o mod 8 =? 0) && (o_nv o + node_size c <=? o_req o)
-  | 2 => (o_off o + n + G c <=? o_req o) && (node_size c <=? o_nv o)
+  | 2 => (o_off o + n + G c <=? o_req o) && (node_size c <=? o_nv o)     (* the record fits into what is left of its own region *)
   | _ => false
   end.
 (* whatever is asked of the underlying allocator is either a request for a leak record or large enough for the user bytes
@@ -344,21 +360,25 @@ Definition calls_ok (c : cfg) (n : N) (cs : list call) : bool := forallb (call_o
 Fixpoint list_eqb (a b : list N) : bool :=
   match a, b with [], [] => true | x :: a', y :: b' => (x =? y) && list_eqb a' b' | _, _ => false end.
 
-(* an allocation-like request of [n] bytes (mathematical size) whose content must be [content tt] *)
-Definition spec_alloc (c : cfg) (throwing : bool) (n : N) (content : unit -> list N) (before after_ok : N) (fail_dig : list N) (o : oobs) : bool :=
-  (o_rep o =? 0) && calls_ok c n (o_calls o) &&
+(* an allocation-like request of [n] bytes (mathematical size) whose content must be [content tt].
+   [w]: the accounting wrappers are installed; the call log then also holds the wrappers' own requests (and a wrapper keeps
+   its node for a request that failed), so the two clauses about the sizes and the balance of the underlying calls are not
+   demanded; everything else -- kind of result, alignment, disjointness, layout inside the region, content, totals, reports,
+   NULL only with a cause, no pointer after a failed call -- is demanded unchanged *)
+Definition spec_alloc (w : bool) (c : cfg) (throwing : bool) (n : N) (content : unit -> list N) (before after_ok : N) (fail_dig : list N) (o : oobs) : bool :=
+  (o_rep o =? 0) && (w || calls_ok c n (o_calls o)) &&
   if o_kind o =? K_PTR then
-    negb (any_failed (o_calls o)) && (n <? W) && layout_ok c n o && (o_amod o =? 0) && (o_total o =? after_ok) && list_eqb (o_dig o) (digest (content tt))
+    negb (any_failed (o_calls o)) && (n <? W) && layout_ok c n o && (o_amod o =? 0) && (o_ovl o =? 0) && (o_total o =? after_ok) && list_eqb (o_dig o) (digest (content tt))
   else if o_kind o =? (if throwing then K_BAD else K_NULL) then
-    (any_failed (o_calls o) || too_big c n) && balanced (o_calls o) && (o_total o =? before) && list_eqb (o_dig o) fail_dig
+    (any_failed (o_calls o) || too_big c n) && (w || balanced (o_calls o)) && (o_total o =? before) && list_eqb (o_dig o) fail_dig
   else false.
 
 Definition spec_skip (l : live) (o : oobs) : bool := (o_kind o =? K_SKIP) && (o_total o =? count l) && (o_rep o =? 0).
 
 Definition str_of (s : list N) : list N := cut_nul s.
-Definition spec_step (c : cfg) (l : live) (idx : N) (o : op) (ob : oobs) : option live :=
+Definition spec_step (w : bool) (c : cfg) (l : live) (idx : N) (o : op) (ob : oobs) : option live :=
   let fresh fam n content :=
-    if spec_alloc c false n content (count l) (count l + 1) [] ob then
+    if spec_alloc w c false n content (count l) (count l + 1) [] ob then
       Some (if o_kind ob =? K_PTR then (idx, fam, content tt) :: l else l) else None in
   match o with
   | OMalloc n | ODetAlloc n => fresh 0 n (fun _ => repeat FILL (N.to_nat n))
@@ -367,14 +387,14 @@ Definition spec_step (c : cfg) (l : live) (idx : N) (o : op) (ob : oobs) : optio
   | OStrndup s k => let m := N.min (N.of_nat (length (str_of s))) k in fresh 0 (m + 1) (fun _ => firstn (N.to_nat m) (str_of s) ++ [0])
   | ONew arr throwing n =>
       let content := fun _ : unit => repeat FILL (N.to_nat n) in
-      if spec_alloc c throwing n content (count l) (count l + 1) [] ob then
+      if spec_alloc w c throwing n content (count l) (count l + 1) [] ob then
         Some (if o_kind ob =? K_PTR then (idx, (if arr then 2 else 1), content tt) :: l else l) else None
   | ORealloc None n => fresh 0 n (fun _ => repeat RFILL (N.to_nat n))
   | ORealloc (Some i) n =>
       match l_find i l with
       | Some (0, d) =>
           let content := fun _ : unit => realloc_data d n in
-          if spec_alloc c false n content (count l) (count l) (digest d) ob then
+          if spec_alloc w c false n content (count l) (count l) (digest d) ob then
             Some (if o_kind ob =? K_PTR then (idx, 0, content tt) :: l_remove i l else l) else None
       | _ => if spec_skip l ob then Some l else None
       end
@@ -400,13 +420,13 @@ Fixpoint end_eqb (l : live) (e : list (N * list N)) : bool :=
   | x :: l', y :: e' => (fst (fst x) =? fst y) && list_eqb (digest (snd x)) (snd y) && end_eqb l' e'
   | _, _ => false
   end.
-Fixpoint spec_steps (c : cfg) (l : live) (idx : N) (ops : list op) (obs : list oobs) (e : list (N * list N)) : bool :=
+Fixpoint spec_steps (w : bool) (c : cfg) (l : live) (idx : N) (ops : list op) (obs : list oobs) (e : list (N * list N)) : bool :=
   match ops, obs with
   | [], [] => end_eqb l e
-  | o :: r, ob :: obr => match spec_step c l idx o ob with Some l' => spec_steps c l' (idx + 1) r obr e | None => false end
+  | o :: r, ob :: obr => match spec_step w c l idx o ob with Some l' => spec_steps w c l' (idx + 1) r obr e | None => false end
   | _, _ => false
   end.
 
 Definition spec (sc : scenario) (o : obs) : bool :=
-  Bool.eqb (ob_guard o) (guard_on (sc_cfg sc)) && (ob_ns o =? node_size (sc_cfg sc)) &&
-  spec_steps (sc_cfg sc) [] 0 (sc_ops sc) (ob_ops o) (ob_end_live o) && (ob_end_total o =? 0) && (ob_end_rep o =? 0).
+  Bool.eqb (ob_guard o) (guard_on (sc_cfg sc)) && (ob_ns o =? node_size (sc_cfg sc)) && Bool.eqb (ob_wrap o) (sc_wrap sc) &&
+  spec_steps (sc_wrap sc) (sc_cfg sc) [] 0 (sc_ops sc) (ob_ops o) (ob_end_live o) && (ob_end_total o =? 0) && (ob_end_rep o =? 0).
